@@ -90,12 +90,42 @@ def _radial_check(a):
     with warnings.catch_warnings():
         warnings.simplefilter("ignore")
         tube = _make_tube(a)
-        rn = RadialNumericalBH(tube)
         rb_star = tube.calc_effective_borehole_resistance()
         rf = tube.R_f / 2.0
         if not rb_star > rf:
             return True, {"skipped": "R_b* <= R_f/2: outside the valid-borehole domain"}
-        cells = rn.fill_radial_cells(rf, rb_star - rf)
+        # history, as in the tool's own use: another borehole with the same geometry, conductivities, soil, fluid, flow and height but other grout / pipe heat capacities is
+        # computed first in this interpreter, and the model object is built once (for that borehole) and re-used for this one (GHE.simulate re-uses it)
+        decoy = _make_tube(dict(a, rho_cp_grout=a.get("rho_cp_grout", 3901000.0) * 0.5, rho_cp_pipe=a.get("rho_cp_pipe", 1542000.0) * 1.7))
+        rn = RadialNumericalBH(decoy)
+        rn.calc_sts_g_functions(decoy)
+        captured = []
+        real_fill = rn.fill_radial_cells
+
+        def fill_spy(*x, **kw):
+            out = real_fill(*x, **kw)
+            captured.append(np.array(out, dtype=float))
+            return out
+
+        rn.fill_radial_cells = fill_spy
+        fields = []
+        real = rmod.dgtsv
+
+        def spy(dl, d, du, b, overwrite_b=0):
+            out = real(dl, d, du, b, overwrite_b=overwrite_b)
+            fields.append(np.array(out[3], dtype=float))
+            return out
+
+        rmod.dgtsv = spy
+        try:
+            lntts, g = rn.calc_sts_g_functions(tube)
+        finally:
+            rmod.dgtsv = real
+            del rn.fill_radial_cells
+        if not captured or not fields:
+            return False, {"why": "no cell table / no temperature field was computed for this borehole (the response did not come from a solution of its own conduction problem)",
+                           "signature": "not-computed"}
+        cells = captured[-1]
         rin, rc_, rout, k, c, vol = (np.array(cells[p, :], dtype=float) for p in (CellProps.R_IN, CellProps.R_CENTER, CellProps.R_OUT, CellProps.K, CellProps.RHO_CP, CellProps.VOL))
         n = cells.shape[1]
         rel = lambda x, y: abs(x - y) / max(abs(y), 1e-300)  # noqa: E731
@@ -114,20 +144,6 @@ def _radial_check(a):
         res = float(np.sum(np.log(rout[3:rn.bh_wall_idx] / rin[3:rn.bh_wall_idx]) / (2 * pi * k[3:rn.bh_wall_idx])))
         if rel(res, rb_star) > 1e-9:
             return False, {"why": "layers between fluid and borehole wall do not sum to the effective borehole resistance", "got": res, "want": rb_star, "signature": "layer-resistance"}
-        # the computation itself: capture the temperature field of every step through the LAPACK call
-        fields = []
-        real = rmod.dgtsv
-
-        def spy(dl, d, du, b, overwrite_b=0):
-            out = real(dl, d, du, b, overwrite_b=overwrite_b)
-            fields.append(np.array(out[3], dtype=float))
-            return out
-
-        rmod.dgtsv = spy
-        try:
-            lntts, g = rn.calc_sts_g_functions(tube)
-        finally:
-            rmod.dgtsv = real
         g, g_bhw, lntts = np.array(rn.g, dtype=float), np.array(rn.g_bhw, dtype=float), np.array(rn.lntts, dtype=float)
         if not (np.all(np.isfinite(g)) and np.all(np.isfinite(g_bhw)) and np.all(np.isfinite(lntts))):
             return False, {"why": "response not finite", "signature": "finite"}
@@ -306,3 +322,12 @@ def lemma_resistance_from_conductivity():
 
 LEMMAS = [("pipe-and-grout-layer-logarithms-telescope", lemma_layers_sum_to_borehole_resistance),
           ("layer-resistance-equals-the-prescribed-resistance", lemma_resistance_from_conductivity)]
+
+
+# ---- partial_init: the model object is re-used for another tube (GHE.simulate does): it must take that tube over ------------------------------------
+contract(f"{R_}:RadialNumericalBH.partial_init", dict(self=RadialSelf(), single_u_tube=TubeShape()),
+         requires=[("valid-borehole", lambda E: _valid_tube(E.single_u_tube))],
+         ensures=[("works-on-the-tube-it-was-given", lambda E: E.self.single_u_tube.raw() is E.single_u_tube.raw()),
+                  ("characteristic-time-of-that-tube", lambda E: And(E.self.t_s * (9 * (E.single_u_tube.k_s / E.single_u_tube.soil.rhoCp)) == E.single_u_tube.b.H * E.single_u_tube.b.H, E.self.t_s > 0)),
+                  ("computed-period-at-least-49-hours", lambda E: E.self.calc_time_in_sec >= 49 * 3600)],
+         assigns=writes("self.single_u_tube", "self.t_s", "self.calc_time_in_sec"), returns=NoneT())
